@@ -599,6 +599,11 @@ def main():
     ev = {"property_id": prop, "tier": tier if tier in ("quick", "thorough") else "quick", "seed": seed,
           "level": cfg.get("level", "proof"), "coverage": cov,
           "assumptions": cfg.get("assumptions", []), "wall_s": round(wall, 2), "violations": len(violations) if violations else (1 if status else 0)}
+    if discharged < cov["obligations"] or discharged == 0:
+        # not a proof-level result in this run: say so instead of writing an invalid proof record
+        ev["level"] = "other"
+        cov["explanation"] = ("proof obligations not all discharged in this run (%d of %d); "
+                              "see signals / failing_theorems" % (discharged, cov["obligations"]))
     os.makedirs(os.path.join(VERIF, "evidence"), exist_ok=True)
     json.dump(ev, open(os.path.join(VERIF, "evidence", prop + ".json"), "w"), indent=1)
     log("%s %s: obligations %d/%d, cases %d (distinct non-trivial %d), disagreements %d, oracle failures %d, %.1fs" % (
